@@ -1066,6 +1066,45 @@ package gohlslib
 //@   atcall clientStreamDownloader.downloadSegment arg2 == d.firstPlaylist.Map.URI && arg3 == d.firstPlaylist.Map.ByteRangeStart && arg4 == d.firstPlaylist.Map.ByteRangeLength
 //@ end
 
+// C10 / C11 (Low-Latency client): the date-time of the hinted part is the last segment's date-time plus its duration plus
+// the durations of the parts listed after it; the hint is fetched with its own byte range; every fetched hint is queued
+// once, with that date-time
+//@ ufun partsum(parts []*playlist.MediaPart, n int) int
+//@ axiom partsum_zero forall_as(a, []*playlist.MediaPart, partsum(a, 0) == 0)
+//@ axiom partsum_def forall_as(a, []*playlist.MediaPart, forall(n, n >= 1 ==> partsum(a, n) == partsum(a, n - 1) + a[n - 1].Duration))
+
+//@ func dateTimeOfPreloadHint
+//@   props C10
+//@   requires pl != nil && forall(i, (0 <= i && i < len(pl.Segments)) ==> pl.Segments[i] != nil) && forall(i, (0 <= i && i < len(pl.Parts)) ==> pl.Parts[i] != nil)
+//@   ensures (result == nil) == (len(pl.Segments) == 0 || pl.Segments[len(pl.Segments) - 1].DateTime == nil)
+//@   ensures result != nil ==> *result == *pl.Segments[len(pl.Segments) - 1].DateTime + pl.Segments[len(pl.Segments) - 1].Duration + partsum(pl.Parts, len(pl.Parts))
+//@   ensures result != nil ==> fresh(result)
+//@   loop 1 invariant -1 <= ri && ri < len(pl.Parts) && d == *pl.Segments[len(pl.Segments) - 1].DateTime + pl.Segments[len(pl.Segments) - 1].Duration + partsum(pl.Parts, ri + 1)
+//@ end
+
+//@ func clientStreamDownloader.downloadPreloadHint
+//@   props C11 C13
+//@   nosafety
+//@   noframe
+//@   nocallpre
+//@   requires d.playlistURL != nil && d.httpClient != nil && d.onDownloadPart != nil && d.onRequest != nil && ctx != nil && preloadHint != nil
+//@   ensures preloadHint.ByteRangeLength == nil ==> calls("http.Header.Add") == 0
+//@   ensures (preloadHint.ByteRangeLength != nil && calls("http.Client.Do") == 1) ==> (calls("http.Header.Add") == 1 && callarg("http.Header.Add", 0, 1) == "Range"
+//@        && callarg("http.Header.Add", 0, 2) == "bytes=" + strconv.FormatUint(preloadHint.ByteRangeStart, 10) + "-" + strconv.FormatUint(uint64(preloadHint.ByteRangeStart + *preloadHint.ByteRangeLength - 1), 10))
+//@   ensures calls("http.Client.Do") <= 1
+//@ end
+
+//@ func clientStreamDownloader.runLowLatency
+//@   props C10 C11 C20
+//@   nosafety
+//@   noframe
+//@   nocallpre
+//@   modifies *
+//@   atcall clientStreamDownloader.downloadPreloadHint arg2 == pl.PreloadHint
+//@   atcall clientSegmentQueue.push arg1 != nil && arg1.payload == byts && arg1.dateTime == callres("dateTimeOfPreloadHint", calls("dateTimeOfPreloadHint") - 1)
+//@        && callarg("dateTimeOfPreloadHint", calls("dateTimeOfPreloadHint") - 1, 0) == pl
+//@ end
+
 // ---------------------------------------------------------------------------------------
 // C10 / C11 / C13: client (sequential logic; goroutines, channels and HTTP are outside the VCs)
 
